@@ -80,7 +80,7 @@ def run(ck):
     # `s.compare` only.  (VERIF_FAULT=badmodel keeps exactly these answers intact.)
     ck.spec_ops = {"hash", "aes_enc", "aes_dec", "sm4_enc", "sm4_dec", "ecb_enc", "ecb_dec", "cbc_enc", "cbc_dec", "sm4cbc_enc", "sm4cbc_dec",
                    "ctr", "xts_enc", "xts_dec", "ccm_enc", "ccm_dec", "kw_wrap", "kw_unwrap", "cmac", "hmac", "hkdf", "crc"}
-    ck.lean_obligations(generated=["CrcTable", "SymConsts", "Sb31Kdf"])
+    ck.lean_obligations(generated=["CrcTable", "SymConsts", "Sb31Kdf", "CounterConsts"])
     drv = ck.driver()
     ck.assume(
         "cryptography/OpenSSL implements AES (ECB/CBC/CTR/XTS/CCM, RFC 3394), SM4-CBC, CMAC, HMAC, HKDF, SHA-1/2 as the Lean "
@@ -102,6 +102,8 @@ def run(ck):
     ck.extra["generated_fallbacks"] = dict(meta.get("fallback", {}))
     if ck.generated_meta.get("Sb31Kdf", {}).get("fallback"):
         ck.extra["generated_fallbacks"]["Sb31Kdf.table"] = ck.generated_meta["Sb31Kdf"]["fallback"]
+    for k_, v_ in (ck.generated_meta.get("CounterConsts", {}).get("fallback") or {}).items():
+        ck.extra["generated_fallbacks"]["CounterConsts." + k_] = v_
     # live cross-check of the generated tables (a disagreement is extractor trouble = infrastructure, never a verdict)
     live_enum = [[m.name, m.tag, m.label] for m in EnumHashAlgorithm]
     if meta.get("values", {}).get("hashEnum") != live_enum and "hashEnum" not in meta.get("fallback", {}):
@@ -840,6 +842,138 @@ def run(ck):
             B.corr(s, ("counter-bad", bad), f"w_counter {hexs(bad)} none 1", canon(r))
     B.flush()
     ck.extra["counter_wrap_cases"] = nwrap
+
+
+    # =============================================================== phase 3: the incremental forms (Model/SymStream.lean, Properties/C09 Part H)
+    s = ck.stream("hash_stream", "Hash(alg): arbitrary sequences of update(chunk) / update_int(v) then finalize() - chunk sizes around the block "
+                  "boundaries (0,1,55,56,63,64,65,111,112,119,120,127,128,129,random to 600), empty chunks, 0..9 calls; correspondence with the "
+                  "RUNNING SHA state machine of the Lean model (chaining value + buffer + count, theorem sha_stream_eq_oneshot); oracle vs hashlib "
+                  "on the concatenation; spsdk hmac() vs the incremental HMAC model fed in random pieces")
+    csz = [0, 0, 1, 3, 55, 56, 63, 64, 65, 111, 112, 119, 120, 127, 128, 129, 191, 192, 256]
+    for a, ea in algs.items():
+        for _ in range(ck.budget(45, 600)):
+            calls = []
+            for _k in range(rng.randrange(0, 10)):
+                t = rng.random()
+                if t < 0.15:
+                    calls.append(("i", rng.choice([0, 1, 255, 256, -1, -65536, rng.getrandbits(rng.choice([7, 8, 64, 512, 1030])), -rng.getrandbits(72)])))
+                else:
+                    calls.append(("b", rb(rng.choice(csz) if t < 0.8 else rng.randrange(0, 601))))
+
+            def runh():
+                h = Hash(ea)
+                for kind, v in calls:
+                    if kind == "i":
+                        h.update_int(v)
+                    else:
+                        h.update(v)
+                return h.finalize()
+            r = pyres(runh)
+            whole = b"".join(abs(v).to_bytes((abs(v).bit_length() + 7) // 8, "big") if kind == "i" else v for kind, v in calls)
+            inp = ("hash-calls", a, [v if kind == "i" else v.hex() for kind, v in calls])
+            s.note(inp, nontrivial=len(whole) > 0, cls=f"{a} " + ("multi-block" if len(whole) >= (64 if a in ("sha1", "sha256") else 128) else "short") +
+                   (" +int" if any(k == "i" for k, _ in calls) else "") + (" +empty" if any(k == "b" and not v for k, v in calls) else ""))
+            want = hashlib.new(a, whole).digest()
+            s.expect(r == ("ok", want), inp, "Hash.update*/update_int*/finalize differs from the one-shot digest of the concatenated data", r, want)
+            B.corr(s, inp, f"w_sha_stream {a} " + " ".join(f"i:{v}" if kind == "i" else hexs(v) for kind, v in calls), canon(r))
+        for _ in range(ck.budget(12, 150)):
+            key = rb(rng.choice([0, 1, 16, 32, 63, 64, 65, 127, 128, 129, 200]))
+            m = rb(rng.choice(csz + [rng.randrange(0, 400)]))
+            cuts = sorted(rng.randrange(0, len(m) + 1) for _ in range(rng.randrange(0, 4)))
+            parts = [m[i:j] for i, j in zip([0] + cuts, cuts + [len(m)])]
+            r = pyres(hmac, key, m, ea)
+            inp = ("hmac-stream", a, key, m, cuts)
+            s.note(inp, cls=f"hmac {a}")
+            s.expect(r == ("ok", pyhmac.new(key, m, a).digest()), inp, "hmac() differs from RFC 2104 (Python's hmac)", r)
+            B.corr(s, inp, f"w_hmac_stream {a} {hexs(key)} " + " ".join(hexs(x) for x in parts), canon(r))
+    B.flush()
+
+    s = ck.stream("crc_resume", "CRC continuation as the code offers it (crc_obj.initial_value = crc_so_far; crc_obj.calculate(rest), the MBI CRC mixin's "
+                  "pattern): 2..5 pieces, empty pieces included, all three algorithms - oracle: equals the independent CRC of the concatenation "
+                  "(theorem crc_resume / crc_pieces); burst oracle: an error pattern confined to <= width consecutive bits at ANY bit offset changes "
+                  "the CRC (theorem crc_burst_width)")
+    rev8 = [int(f"{i:08b}"[::-1], 2) for i in range(256)]
+    for name in names:
+        if name not in indep:
+            continue
+        alg = getattr(CrcAlg, name)
+        width = 16 if name == "CRC16_XMODEM" else 32
+        for _ in range(ck.budget(60, 800)):
+            pieces = [rb(rng.choice([0, 1, 2, 3, 4, 5, 8, 16, 33, rng.randrange(0, 300)])) for _k in range(rng.randrange(2, 6))]
+
+            def runp():
+                o = from_crc_algorithm(alg)
+                c = o.calculate(pieces[0])
+                mids = [c]
+                for pc in pieces[1:]:
+                    o.initial_value = c
+                    c = o.calculate(pc)
+                    mids.append(c)
+                return mids
+            r = pyres(runp)
+            inp = ("crc-pieces", name, [x.hex() for x in pieces])
+            s.note(inp, nontrivial=sum(map(len, pieces)) > 0, cls=name + " resume")
+            want = [indep[name](b"".join(pieces[:i + 1])) for i in range(len(pieces))]
+            s.expect(r == ("ok", want), inp, f"{name}: resuming through initial_value differs from the CRC of the concatenation", r, want)
+            B.corr(s, inp, f"w_crc_pieces {name} " + " ".join(hexs(x) for x in pieces), ("ok:%d" % r[1][-1]) if r[0] == "ok" else r[0])
+            if r[0] == "ok":
+                B.corr(s, inp + ("last",), f"w_crc_resume {name} {r[1][-2]} {hexs(pieces[-1])}", "ok:%d" % r[1][-1])
+        calc = from_crc_algorithm(alg).calculate
+        for _ in range(ck.budget(150, 3000)):
+            n = rng.choice([2, 3, 4, 5, 8, 9, 31, rng.randrange(2, 120)])
+            m = rb(n)
+            blen = rng.randrange(1, min(width, 8 * n) + 1)          # window length in bits
+            bpat = (1 << (blen - 1)) | rng.getrandbits(blen - 1) | (1 if rng.random() < 0.7 else 0) if blen > 1 else 1
+            j = rng.randrange(0, 8 * n - blen + 1)
+            e = (bpat << j).to_bytes(n, "big")
+            if name == "CRC32":                                     # reflected: the window is in transmission order (each byte LSB first)
+                e = bytes(rev8[x] for x in e)
+            m2 = bytes(x ^ y for x, y in zip(m, e))
+            r1, r2 = pyres(calc, m), pyres(calc, m2)
+            s.note(("crc-burst-w", name, n, blen, j), cls=name + (" burst across bytes" if (j % 8) + blen > 8 else " burst in a byte"))
+            s.expect(r1[0] == "ok" and r2[0] == "ok" and r1 != r2, ("crc-burst-w", name, m, m2), f"{name}: an error burst of {blen} <= {width} bits is not detected", (r1, r2))
+    B.flush()
+
+    s = ck.stream("ctr_position", "the SB2 pattern `out += aes_ctr_encrypt(key, chunk, counter.value); counter.increment(len(chunk)//16)`: keys 16/24/32, "
+                  "both counter byte orders, start words {0,1,2^32-4..2^32-1,random}, 0..5 block-aligned chunks (+ a ragged last one); correspondence with the "
+                  "model's ctrChunks; oracle (independent): chunk i is AES-CTR under nonce[:12] | (start + blocks before it) mod 2^32 (raw cryptography), "
+                  "and - big-endian, no 32-bit overflow before the last chunk - the whole equals ONE aes_ctr_encrypt call (theorem counter_positions_ctr)")
+    nover = 0
+    for _ in range(ck.budget(160, 2500)):
+        key = rb(rng.choice([16, 24, 32]))
+        order = BE if rng.random() < 0.7 else LE
+        st = rng.choice([0, 1, M32 - 4, M32 - 3, M32 - 2, M32 - 1, rng.getrandbits(32)])
+        cv = rng.choice([None, None, 0, 1, 3, rng.getrandbits(8)])
+        nonce = rb(12) + st.to_bytes(4, order.value)
+        chunks = [rb(16 * rng.choice([0, 1, 1, 2, 3, 5])) for _k in range(rng.randrange(0, 6))]
+        if rng.random() < 0.3:
+            chunks.append(rb(rng.randrange(1, 40)))
+
+        def runctr():
+            cn = S.Counter(nonce, cv, order)
+            out = []
+            for ch in chunks:
+                out.append(S.aes_ctr_encrypt(key, ch, cn.value))
+                cn.increment(len(ch) // 16)
+            return out
+        r = pyres(runctr)
+        inp = ("ctr-chunks", key, nonce, cv, order.value, [x.hex() for x in chunks])
+        pos, want, overflow = st + (cv or 0), [], False
+        for i, ch in enumerate(chunks):
+            overflow = overflow or pos >= M32
+            want.append(raw_cipher(algorithms.AES(key), modes.CTR(nonce[:12] + (pos % M32).to_bytes(4, order.value)), False, ch))
+            pos += len(ch) // 16
+        nover += overflow
+        s.note(inp, nontrivial=len(chunks) > 1, cls=("BE" if order == BE else "LE") + (" overflow" if overflow else " plain"))
+        s.expect(r == ("ok", want), inp, "chunk-wise AES-CTR positioned by Counter: some chunk is not encrypted under nonce[:12] | (start + blocks before it) mod 2^32",
+                 r if r[0] != "ok" else [x.hex() for x in r[1]], [x.hex() for x in want])
+        if order == BE and not overflow and r[0] == "ok":
+            one = pyres(S.aes_ctr_encrypt, key, b"".join(chunks), nonce[:12] + ((st + (cv or 0)) % M32).to_bytes(4, "big"))
+            s.expect(one == ("ok", b"".join(r[1])), inp + ("one-call",), "chunk-wise AES-CTR with Counter.increment(len//16) differs from one call on the concatenation", one)
+        B.corr(s, inp, f"w_ctr_chunks {hexs(key)} {hexs(nonce)} {'none' if cv is None else cv} {int(order == LE)} " + " ".join(hexs(x) for x in chunks),
+               ("ok:" + b"".join(r[1]).hex()) if r[0] == "ok" else r[0])
+    B.flush()
+    ck.extra["ctr_overflow_cases"] = nover
 
 
 def replay(ck, data):
